@@ -1010,6 +1010,26 @@ func (x *Exec) guardedKeys(tkey, mu string) []string {
 			}
 		}
 	}
+	if tc := e.cs.Types[tkey]; tc != nil {
+		ctx := &EvalCtx{x: x, pkg: tc.Pkg}
+		for _, rd := range tc.Guards[mu] {
+			func() {
+				defer func() {
+					if r := recover(); r != nil {
+						if ee, ok := r.(evalErr); ok {
+							x.errorf("guards %s: %s", rd, ee.msg)
+							return
+						}
+						panic(r)
+					}
+				}()
+				for _, kk := range ctx.readKeys(rd) {
+					e.keySort[kk[0]] = kk[1]
+					out = append(out, kk[0])
+				}
+			}()
+		}
+	}
 	sort.Strings(out)
 	return out
 }
